@@ -1,6 +1,6 @@
 """C08 -- Rock Ridge fidelity for an independent SUSP/RRIP reader.  DESIGN.md section 8.8."""
 from harness import common, nsoracles, sysimg, sysprops
-from harness.props import celeaf, namesleaf, nlinkleaf
+from harness.props import celeaf, namesleaf, nlinkleaf, rrleaf
 
 MODULE = 'C08'
 RECIPES = ['ce_gap_plus', 'ce_gap_exact', 'ce_gap_minus', 'deep_tree', 'long_symlinks', 'fat_dir_churn']
@@ -8,6 +8,7 @@ RECIPES = ['ce_gap_plus', 'ce_gap_exact', 'ce_gap_minus', 'deep_tree', 'long_sym
 
 def oracle(b, report):
     nsoracles.oracle_c08(b, report)
+    rrleaf.collect(b)
 
 
 def run(ctx):
@@ -31,6 +32,7 @@ def run(ctx):
         rp = (ctx.rng.randrange(1, len(ops)),)
         sysprops.run_oracle(ctx, 'C08', iter([(label + '+reopen', cfg, ops, sizes)]), oracle, need_reopen=False, max_shrink=1,
                             build_kwargs={'reopen_points': rp})
+    rrleaf.flush(ctx)
     ctx.cov['rule'] = ('Rock Ridge images (1.09/1.10/1.12 x XA x Joliet/UDF) of random histories with 30% long names plus recipes: '
                        'continuation-area gaps of exactly the needed size +-1 after rm_directory, trees deeper than 8 (relocation, also '
                        'with XA), symlink targets crossing every SL record/component boundary; an independent SUSP/RRIP reader must '
